@@ -190,6 +190,11 @@ def replay(doc):
     for k, v in snap.items():
         setattr(old_ns, k, v)
     is_init = parts[-1] == '__init__'
+    # callees that the contract treats by a TRUSTED contract may name a native stub realising it
+    for tgt, stub in (getattr(C, 'native_stubs', None) or {}).items():
+        owner = _cls(tgt.rpartition('.')[0]) if '.' in tgt.partition(':')[2] else importlib.import_module(tgt.partition(':')[0])
+        attr = tgt.rpartition('.')[2] if '.' in tgt.partition(':')[2] else tgt.partition(':')[2]
+        setattr(owner, attr, _cls(stub)(getattr(owner, attr)))
     try:
         if len(parts) == 1:
             fn = getattr(m, parts[0])
